@@ -645,6 +645,14 @@ pub fn shard_run(tier: &str, seed: u64, replay_case: Option<usize>, shard: Shard
             }
         }
     }
+    // ---- downloads with conditional and range headers: the whole payload, or exactly the range
+    if replay_case.map(|c| c == 70_000_000).unwrap_or(shard.k == (7 % shard.n)) {
+        if let Some(f) = crate::checks_http::conditional_download_part("C06", seed, &mut cov) {
+            out.found.push(f);
+            out.cov = cov;
+            return out;
+        }
+    }
     // ---- an upload that stalls in the middle of its body (slow or flaky link) and then completes
     if replay_case.is_none() && shard.k == (6 % shard.n) {
         use crate::http::socket_request_two_parts;
@@ -701,13 +709,13 @@ pub fn finalize(out: ShardOut, is_replay: bool) -> CheckResult {
     let coverage = json!({
         "evaluations": cov.evaluations,
         "distinct_nontrivial": cov.situations.len(),
-        "rule": "uploads of versions and snapshots: lengths 1,2,3, powers of two +-1, every 9th (quick) / every (thorough) length in the page-overflow neighbourhood 3850..4250, 64 KiB / 128 KiB / 1 MiB +-1, random lengths, 16 MiB (100 MiB -1 / exactly 100 MiB in thorough) x 13 byte classes (zeros, 0xFF, random, digits, numeric-looking text, valid and invalid UTF-8, NUL/CRLF runs, chunk-framing look-alikes, payloads that are themselves complete zlib streams / gzip members, payloads starting with well-known container magic) x chunkings (one chunk, 1+rest, rest+1, 3 and 5 chunks, empty chunks around, one byte per chunk, 4095/4096/4097/65536 boundaries, powers of two, random partitions) through the library, the in-process HTTP service (exact chunk delivery), an in-process HttpServer over a real socket (chunked transfer encoding / Content-Length in flushed segments) and the real executable with SQLite; each upload is read back through the same path and compared byte for byte together with its ids; chains start from nil and from non-nil parents; plus pairs of uploads that overlap on a 1- and a 2-worker server (one connection sends half of its body, the other uploads completely in three chunks, the first finishes); uploads that stall for 10.5 s in mid-body; and several uploads followed by their downloads on ONE connection (keep-alive, and pipelined with all requests written before the first response is read; chunked and Content-Length bodies alternating; 1- and 3-worker servers); and two clients whose chains meet in one version id, each holding a child of it and a snapshot for it. distinct_nontrivial = distinct (path, kind, byte class, chunking family, length class).",
+        "rule": "uploads of versions and snapshots: lengths 1,2,3, powers of two +-1, every 9th (quick) / every (thorough) length in the page-overflow neighbourhood 3850..4250, 64 KiB / 128 KiB / 1 MiB +-1, random lengths, 16 MiB (100 MiB -1 / exactly 100 MiB in thorough) x 13 byte classes (zeros, 0xFF, random, digits, numeric-looking text, valid and invalid UTF-8, NUL/CRLF runs, chunk-framing look-alikes, payloads that are themselves complete zlib streams / gzip members, payloads starting with well-known container magic) x chunkings (one chunk, 1+rest, rest+1, 3 and 5 chunks, empty chunks around, one byte per chunk, 4095/4096/4097/65536 boundaries, powers of two, random partitions) through the library, the in-process HTTP service (exact chunk delivery), an in-process HttpServer over a real socket (chunked transfer encoding / Content-Length in flushed segments) and the real executable with SQLite; each upload is read back through the same path and compared byte for byte together with its ids; chains start from nil and from non-nil parents; plus pairs of uploads that overlap on a 1- and a 2-worker server (one connection sends half of its body, the other uploads completely in three chunks, the first finishes); uploads that stall for 10.5 s in mid-body; downloads with conditional and range headers on both download routes (a 200 carries the whole payload, a 206 exactly the requested range with a matching Content-Range); and several uploads followed by their downloads on ONE connection (keep-alive, and pipelined with all requests written before the first response is read; chunked and Content-Length bodies alternating; 1- and 3-worker servers); and two clients whose chains meet in one version id, each holding a child of it and a snapshot for it. distinct_nontrivial = distinct (path, kind, byte class, chunking family, length class).",
         "samples": cov.samples,
         "uploads": out.executed,
         "situations_top": top.iter().take(40).map(|(k, v)| json!({"situation": k, "n": v})).collect::<Vec<_>>(),
-        "connection_level_situations": cov.situations.iter().filter(|(k, _)| k.starts_with("one-connection|") || k.starts_with("interleaved-uploads|") || k.starts_with("stalled-upload|")).map(|(k, v)| json!({"situation": k, "n": v})).collect::<Vec<_>>(),
+        "connection_level_situations": cov.situations.iter().filter(|(k, _)| k.starts_with("one-connection|") || k.starts_with("interleaved-uploads|") || k.starts_with("stalled-upload|") || k.starts_with("conditional|")).map(|(k, v)| json!({"situation": k, "n": v})).collect::<Vec<_>>(),
     });
-    let required = ["stalled-upload|", "interleaved-uploads|workers=1", "one-connection|pipelined", "one-connection|keep-alive", "shared-version-id|", "taken-over-from-pinned-release|had-a-snapshot", "class=zlib-stream", "class=gzip-member", "Lib(Sqlite)|", "Http(Mem)|", "Http(Sqlite)|", "SocketMem|", "SocketBinary|", "chunking=five", "chunking=empty", "len~overflow-window", "len~big", "class=invalid-utf8", "class=numeric-text", "|snapshot|"];
+    let required = ["conditional|snapshot|GET|Range", "conditional|get-child-version|GET|Range", "stalled-upload|", "interleaved-uploads|workers=1", "one-connection|pipelined", "one-connection|keep-alive", "shared-version-id|", "taken-over-from-pinned-release|had-a-snapshot", "class=zlib-stream", "class=gzip-member", "Lib(Sqlite)|", "Http(Mem)|", "Http(Sqlite)|", "SocketMem|", "SocketBinary|", "chunking=five", "chunking=empty", "len~overflow-window", "len~big", "class=invalid-utf8", "class=numeric-text", "|snapshot|"];
     let verdict = if !out.found.is_empty() {
         Verdict::Violated(out.found)
     } else if !out.errors.is_empty() {
